@@ -117,6 +117,10 @@ type runCase struct {
 	onSubmit func(j *simrun.Job)
 	onFinish func(j *simrun.Job)
 	yield    func()
+	// hooks of the interruption / fault runs
+	seen      int
+	intervene func() core.MetadataState
+	finish    func(j *simrun.Job) bool
 }
 
 func (rc *runCase) logf(f string, a ...any) { rc.history = append(rc.history, fmt.Sprintf(f, a...)) }
@@ -311,12 +315,10 @@ func (rc *runCase) checkJobStart(t *rapid.T, ix *modelIndex, j *simrun.Job) {
 
 // drive runs the pipestance to completion under a generated schedule.
 func (rc *runCase) drive(t *rapid.T, ix *modelIndex) core.MetadataState {
-	sim := rc.sim
-	seen := 0
 	checkNew := func() {
-		for seen < len(sim.Jobs) {
-			j := sim.Jobs[seen]
-			seen++
+		for rc.seen < len(rc.sim.Jobs) {
+			j := rc.sim.Jobs[rc.seen]
+			rc.seen++
 			rc.logf("submit %s", j)
 			rc.checkJobStart(t, ix, j)
 			if rc.onSubmit != nil {
@@ -326,6 +328,13 @@ func (rc *runCase) drive(t *rapid.T, ix *modelIndex) core.MetadataState {
 	}
 	stall := 0
 	for iter := 0; iter < 5000; iter++ {
+		if rc.intervene != nil {
+			// (may replace rc.sim: interruption and re-attach)
+			if st := rc.intervene(); st != "" {
+				return st
+			}
+		}
+		sim := rc.sim
 		pat := rapid.SampledFrom([]string{"rs", "rs", "rs", "s", "r", "rss", "rrs", "srs"}).Draw(t, "sched")
 		progress := false
 		for _, c := range pat {
@@ -376,6 +385,9 @@ func (rc *runCase) drive(t *rapid.T, ix *modelIndex) core.MetadataState {
 		k := rapid.IntRange(1, min(3, len(pending))).Draw(t, "nFinish")
 		for i := 0; i < k; i++ {
 			pending = sim.Pending()
+			if len(pending) == 0 {
+				break
+			}
 			idx := rapid.IntRange(0, len(pending)-1).Draw(t, "which")
 			if idx != 0 {
 				rc.reorders++
@@ -383,6 +395,12 @@ func (rc *runCase) drive(t *rapid.T, ix *modelIndex) core.MetadataState {
 			j := pending[idx]
 			if rc.onFinish != nil {
 				rc.onFinish(j)
+			}
+			if rc.finish != nil {
+				// (fault injection: the job may end in a failure instead)
+				if rc.finish(j) {
+					continue
+				}
 			}
 			if err := sim.Finish(j); err != nil {
 				t.Fatalf("INFRA: finishing %s: %v", j, err)
